@@ -19,9 +19,10 @@ from harness import execlib, serverlib, frontends
 ASSUMPTIONS = ['event loops and sockets are replaced by in-process fakes that hand each chunk to the real handler in order; a schedule '
                'is a total order of chunk deliveries (the GIL / event loop serialises the handlers at this granularity)',
                'features all front-ends support: broadcast_enable off (the Twisted protocols have no such option)',
-               'well-formed requests only: what a front-end does with an undecodable frame (close / reset) is C12']
+               'across ALL front-ends: well-formed requests only (what a front-end does with an undecodable frame — close or reset — is C12); '
+               'hostile traffic is compared within the groups that react alike: {sync, asyncio, Twisted} TCP and {asyncio, Twisted} UDP']
 RULE = ('part 1: {tcp, rtu, ascii} x {single, multi-unit} x ignore_missing x histories of 1..20 data-access / identification requests x '
-        'chunkings {per frame (all 7 front-ends), k per chunk, arbitrary cuts (4 stream front-ends)}; part 2: stream front-end x framer x '
+        'chunkings {per frame (all 7 front-ends), k per chunk, arbitrary cuts (4 stream front-ends), hostile histories (TCP trio / UDP pair)}; part 2: stream front-end x framer x '
         '1..3 connections x arbitrary cuts x random interleavings (all interleavings of <= 7 chunks in thorough); non-trivial = more '
         'than one front-end compared / more than one connection; distinct by (configuration, byte history, schedule)')
 
@@ -74,12 +75,44 @@ def part1(ctx, rep, rng, n_cases):
         framer = rng.choice(['tcp', 'tcp', 'rtu', 'rtu', 'ascii', 'binary'])
         single, units = serverlib.gen_units(rng)
         ignore = rng.random() < 0.5
-        frames = gen_frames(rng, framer, units, rng.choice([1, 2, 5, 10, 20]))
-        if not frames:
-            continue
-        mode = rng.choice(['frame', 'frame', 'k', 'cut'])
-        chunks = cut_stream(rng, frames, mode)
-        fes = GROUP[framer] if mode == 'frame' else [f for f in GROUP[framer] if f in frontends.STREAM_FRONTENDS]
+        mode = rng.choice(['frame', 'frame', 'k', 'cut', 'hostile', 'mix'])
+        if mode == 'mix' and framer in ('tcp', 'rtu', 'ascii'):
+            # reads / datagrams that hold several frames, some of them undecodable (well-framed around a truncated or empty PDU)
+            chunks = []
+            for _ in range(rng.choice([2, 3, 5])):
+                d = []
+                for _ in range(rng.choice([1, 2, 2, 3])):
+                    good = gen_frames(rng, framer, units, 1, ident_p=0.1)
+                    if not good:
+                        continue
+                    g = good[0]
+                    r = rng.random()
+                    if r < 0.55:
+                        d += g
+                    else:
+                        uid = rng.choice([u for u, _ in units])
+                        pdu = rng.choice([[3, 0], [16, 0, 1, 0, 2, 4, 1], [], [6, 0, 1], [1], [23, 0, 0, 0, 1, 0, 0]])
+                        d += serverlib.frame_pdu(framer, pdu, uid, rng.randrange(65536))
+                if d:
+                    chunks.append(d)
+            if not chunks:
+                continue
+            fes = rng.choice([['syncTcp', 'aioTcp', 'twistedTcp']] + ([['aioUdp', 'twistedUdp']] * 2 if framer != 'ascii' else []))
+        elif mode == 'hostile' and framer in ('tcp', 'rtu', 'ascii'):
+            # undecodable / damaged traffic: the front-ends that react to it in the same way must still agree
+            # (theorems stream_frontends_agree and datagram_frontends_agree hold for every byte string)
+            from harness.c12 import gen_hostile
+            chunks, _, _ = gen_hostile(rng, framer, units, single, other_pdus=IDENT_PDUS)   # no counters: only Twisted counts bus messages
+            tail = gen_frames(rng, framer, units, 2)
+            chunks = chunks + tail
+            fes = rng.choice([['syncTcp', 'aioTcp', 'twistedTcp']] + ([['aioUdp', 'twistedUdp']] if framer != 'ascii' else []))
+        else:
+            mode = 'frame' if mode in ('hostile', 'mix') else mode
+            frames = gen_frames(rng, framer, units, rng.choice([1, 2, 5, 10, 20]))
+            if not frames:
+                continue
+            chunks = cut_stream(rng, frames, mode)
+            fes = GROUP[framer] if mode == 'frame' else [f for f in GROUP[framer] if f in frontends.STREAM_FRONTENDS]
         grp = []
         for fe in fes:
             grp.append(len(cases))
@@ -95,6 +128,11 @@ def part1(ctx, rep, rng, n_cases):
                  tag='equiv:%s:%s:%d-frontends' % (c0['framer'], c0['mode'], len(grp)))
         rep.sample({'part': 1, 'framer': c0['framer'], 'mode': c0['mode'], 'frontends': [cases[i]['frontend'] for i in grp],
                     'chunks': len(c0['chunks']), 'bytes_written': sum(len(o) for o in ref['out'])}, cap=4)
+        # replies that report the bus-message counters (only the Twisted front-ends count): nothing to compare
+        counters = any((serverlib.frame_fc(c0['framer'], f) or 0) & 0x7F in (7, 8, 11, 12)
+                       for i in grp for o in res[i][0][0] for f in o)
+        if counters:
+            rep.hist['excluded:counter-dependent-reply'] += 1
         for i in grp:
             c = cases[i]
             case = {k: c[k] for k in ('frontend', 'framer', 'single', 'units', 'ignore_missing', 'broadcast', 'chunks')}
@@ -102,9 +140,9 @@ def part1(ctx, rep, rng, n_cases):
             serverlib.compare(rep, case, res[i][0], res[i][1], 'front-end vs Server.connStep')
             got = canon_real(c['frontend'], res[i][0])
             if any(got['escaped']):
-                rep.violation('an exception escaped the front-end while serving well-formed requests', case, escaped=got['escaped'])
+                rep.violation('an exception escaped the front-end', case, escaped=got['escaped'])
                 break
-            if got != ref:
+            if got != ref and not counters:
                 where = 'dumps' if got['out'] == ref['out'] else 'responses'
                 k = next((j for j, (a, b) in enumerate(zip(got['out'], ref['out'])) if a != b), None)
                 rep.violation('two front-ends given the same datastore and the same request bytes differ in their %s' % where,
